@@ -185,6 +185,9 @@ func Run(cfg Config, body func()) Result {
 	s := &Sched{cfg: cfg, finished: make(chan struct{}), chans: map[uintptr]*chanState{}, atoms: map[uintptr][]int{},
 		shadow: map[shadowKey]*shadowVar{}, raceSeen: map[string]bool{}}
 	active = s
+	// the monitor identifies shared objects by address: no garbage collection inside one execution, so
+	// that an address is never given to a second object while the first one's records are still there
+	defer debug.SetGCPercent(debug.SetGCPercent(-1))
 	t0 := s.newThread("main")
 	t0.vc = []int{1}
 	s.cur = t0
@@ -530,6 +533,9 @@ func Access(obj interface{}, field, kind string) {
 	switch rv.Kind() {
 	case reflect.Ptr, reflect.Map, reflect.Slice, reflect.Chan, reflect.Func, reflect.UnsafePointer:
 		base = rv.Pointer()
+	}
+	if rv.Kind() == reflect.Slice && base == 0 {
+		return // a nil / empty slice has no backing array to race on
 	}
 	t := s.cur
 	key := shadowKey{base, field}
